@@ -239,11 +239,27 @@ def hypothesis_shard(item: dict[str, Any]) -> Collector:
         else:
             case["values"] = draw(st.lists(value, min_size=n, max_size=n))
         case["e2e"] = draw(st.booleans())
+        if draw(st.integers(0, 4)) == 0:  # several CVaR filters in one configuration, each ranking its own function
+            n = draw(st.integers(1, 8))
+            failed = draw(st.lists(st.booleans(), min_size=n, max_size=n))
+            if all(failed) and draw(st.integers(0, 5)) > 0:
+                failed[draw(st.integers(0, n - 1))] = False
+            f_n = draw(st.integers(2, 3))
+            return {"kind": "multi", "n": n, "failed": failed, "percentile": 1.0,
+                    "filters": [{"flavour": draw(st.sampled_from(FLAVOURS)),
+                                 "percentile": draw(st.sampled_from([0.1, 0.25, 0.5, 0.75, 0.9, 1.0, 1 / 3]))} for _ in range(f_n)],
+                    "values": [[draw(value) for _ in range(f_n)] for _ in range(n)]}
         return case
 
     def body(case: dict[str, Any]) -> None:
         failed = np.array(case["failed"], dtype=bool)
         m = int(np.count_nonzero(~failed))
+        if case["kind"] == "multi":
+            run_multi(case)
+            col.case(case, nontrivial=m >= 2 and any(nontrivial(f["percentile"], m) for f in case["filters"]),  # noqa: PLR2004
+                     classes=("several-filters", "failures" if failed.any() else "no-failures",
+                              "all-failed" if m == 0 else "some-success"))
+            return
         if case.get("e2e"):
             run_e2e(case)
         else:
@@ -325,6 +341,64 @@ def run_e2e(case: dict[str, Any]) -> None:
                       f"reported {reported!r} != CVaR_p {cvar!r}", case)
 
 
+def run_multi(case: dict[str, Any]) -> None:
+    """Several CVaR filters in one configuration: every filter's row satisfies the oracle on its own."""
+    from ropt.evaluator import EvaluatorResult
+
+    n = case["n"]
+    failed = np.array(case["failed"], dtype=bool)
+    values = np.array(case["values"], dtype=np.float64).reshape(n, -1)
+    specs = case["filters"]
+    obj_cols = [i for i, f in enumerate(specs) if f["flavour"] == "objective"]
+    con_cols = [i for i, f in enumerate(specs) if f["flavour"] != "objective"]
+    config: dict[str, Any] = {
+        "variables": {"initial_values": [0.0]},
+        "realizations": {"weights": [1.0] * n, "realization_min_success": 0},
+        "realization_filters": [],
+    }
+    k_n = max(len(obj_cols), 1)
+    config["objectives"] = {"weights": [1.0] * k_n, "realization_filters": [-1] * k_n}
+    for pos, i in enumerate(obj_cols):
+        config["objectives"]["realization_filters"][pos] = i
+    lbs, ubs = [], []
+    for i, f in enumerate(specs):
+        if f["flavour"] == "objective":
+            config["realization_filters"].append({"method": "cvar-objective", "options": {"sort": [obj_cols.index(i)], "percentile": f["percentile"]}})
+        else:
+            lb, ub = {"con-upper": (-np.inf, 0.5), "con-lower": (0.5, np.inf), "con-eq": (0.5, 0.5), "con-two": (-0.5, 1.5)}[f["flavour"]]
+            lbs.append(lb); ubs.append(ub)  # noqa: E702
+            config["realization_filters"].append({"method": "cvar-constraint", "options": {"sort": con_cols.index(i), "percentile": f["percentile"]}})
+    if con_cols:
+        config["nonlinear_constraints"] = {"lower_bounds": lbs, "upper_bounds": ubs, "realization_filters": con_cols}
+    cfg = EnOptConfig.model_validate(config)
+
+    def evaluator(variables: np.ndarray, context: Any) -> EvaluatorResult:  # noqa: ANN401
+        rows = variables.shape[0]
+        obj = np.zeros((rows, k_n))
+        for pos, i in enumerate(obj_cols):
+            obj[:, pos] = values[context.realizations, i]
+        con = values[context.realizations][:, con_cols].copy() if con_cols else None
+        obj[failed[context.realizations], 0] = np.nan
+        return EvaluatorResult(objectives=obj, constraints=con)
+
+    m = int(np.count_nonzero(~failed))
+    try:
+        (res,) = EnsembleEvaluator(cfg, None, evaluator, _MANAGER).calculate(np.zeros(1), compute_functions=True, compute_gradients=False)
+    except OptimizationAborted as exc:
+        check(m == 0, "abort-with-successes", f"several filters: aborted although {m} succeeded", case)
+        check(exc.exit_code == OptimizerExitCode.TOO_FEW_REALIZATIONS, "abort-code", f"{exc.exit_code}", case)
+        return
+    check(m > 0, "no-abort-all-failed", "several filters: all failed but a result was produced", case)
+    for i, f in enumerate(specs):
+        if f["flavour"] == "objective":
+            rows_w, pos = res.realizations.objective_weights, obj_cols.index(i)
+        else:
+            rows_w, pos = res.realizations.constraint_weights, con_cols.index(i)
+        check(rows_w is not None, "e2e-weights-missing", f"filter {i}: no filter weights reported", case)
+        sub = {**case, "percentile": f["percentile"], "filter": i}
+        oracle(sub, np.asarray(rows_w[pos], dtype=np.float64), failed, badness(f["flavour"], values[:, i]))
+
+
 # ----------------------------------------------------------------------------
 def shards(tier: str, seed: int) -> list[dict[str, Any]]:
     items: list[dict[str, Any]] = []
@@ -345,7 +419,9 @@ def run_shard(item: dict[str, Any]) -> Collector:
 
 
 def replay(case: dict[str, Any]) -> None:
-    if case.get("e2e"):
+    if case.get("kind") == "multi":
+        run_multi(case)
+    elif case.get("e2e"):
         run_e2e(case)
     else:
         run_filter(case)
